@@ -42,7 +42,7 @@ def make_main(prog):
 
     def main(s):
         q = W.delayed_queue.DelayedQueue(D)
-        now = lambda: tm.time() - core.BASE_TIME  # noqa: E731
+        now = lambda: s.now  # noqa: E731
 
         def producer():
             for i, (gap, delayed) in enumerate(prog["puts"]):
